@@ -3,6 +3,8 @@
 package simhook
 
 import (
+	"fmt"
+	"sort"
 	"sync"
 	"sync/atomic"
 )
@@ -18,6 +20,9 @@ type AutoSimulator interface {
 	WaitFor(label string, cond func() bool)
 	// NoAuto exempts the calling goroutine from machine-inserted interleaving points.
 	NoAuto()
+	// MapOrder returns the order in which the n keys (sorted) of a map are visited by the loop
+	// at site, nil means as they are.
+	MapOrder(n int, site string) []int
 }
 
 func auto() AutoSimulator {
@@ -106,4 +111,37 @@ func (m *RWMutex) RLock() {
 func (m *RWMutex) RUnlock() {
 	m.readers.Add(-1)
 	m.mu.RUnlock()
+}
+
+// MapKeys returns the keys of m in the order the simulator wants the loop at site to visit them
+// (sorted when it has no wish). The instrumented copy iterates over Go maps through it, which turns
+// the runtime's random iteration order into a choice of the simulator.
+func MapKeys[K comparable, V any](m map[K]V, site string) []K {
+	keys := make([]K, 0, len(m))
+	for k := range m {
+		keys = append(keys, k)
+	}
+	names := make([]string, len(keys))
+	for i, k := range keys {
+		names[i] = fmt.Sprint(k)
+	}
+	idx := make([]int, len(keys))
+	for i := range idx {
+		idx[i] = i
+	}
+	sort.SliceStable(idx, func(a, b int) bool { return names[idx[a]] < names[idx[b]] })
+	sorted := make([]K, len(keys))
+	for i, j := range idx {
+		sorted[i] = keys[j]
+	}
+	if a := auto(); a != nil && len(sorted) > 1 {
+		if perm := a.MapOrder(len(sorted), site); len(perm) == len(sorted) {
+			out := make([]K, len(sorted))
+			for i, j := range perm {
+				out[i] = sorted[j]
+			}
+			return out
+		}
+	}
+	return sorted
 }
